@@ -148,6 +148,26 @@ func (p *FloatingIPPlugin) allocateIP(key string, nodeName string, pod *corev1.P
 		}
 	}
 	for _, ipInfo := range ipInfos {
+		if reservedIPs.Has(ipInfo.IP.String()) {
+			if ipInfo.NodeName != "" && ipInfo.NodeName != nodeName {
+				// an earlier bind of this pod failed after the ip had been assigned to another node, unassign it
+				// from that node before assigning it to this one
+				glog.Infof("UnAssignIP nodeName %s, ip %s, key %s", ipInfo.NodeName, ipInfo.IPInfo.IP.IP.String(), key)
+				if err := p.cloudProviderUnAssignIP(&rpc.UnAssignIPRequest{
+					NodeName:  ipInfo.NodeName,
+					IPAddress: ipInfo.IPInfo.IP.IP.String(),
+				}); err != nil {
+					return nil, fmt.Errorf("failed to unassign ip %s from %s: %v", ipInfo.IPInfo.IP.IP.String(),
+						ipInfo.NodeName, err)
+				}
+			}
+			// store the node before assigning the ip to it, if anything fails after AssignIP, the stored node tells
+			// retry, unbind and resync where the ip has to be unassigned from
+			glog.Infof("%s reused %s, updating attr to %v", key, ipInfo.IPInfo.IP.String(), attr)
+			if err := p.ipam.UpdateAttr(key, ipInfo.IPInfo.IP.IP, attr); err != nil {
+				return nil, fmt.Errorf("failed to update floating ip release policy: %v", err)
+			}
+		}
 		glog.Infof("AssignIP nodeName %s, ip %s, key %s", nodeName, ipInfo.IPInfo.IP.IP.String(), key)
 		if err := p.cloudProviderAssignIP(&rpc.AssignIPRequest{
 			NodeName:  nodeName,
@@ -155,12 +175,6 @@ func (p *FloatingIPPlugin) allocateIP(key string, nodeName string, pod *corev1.P
 		}); err != nil {
 			// do not rollback allocated ip
 			return nil, fmt.Errorf("failed to assign ip %s to %s: %v", ipInfo.IPInfo.IP.IP.String(), key, err)
-		}
-		if reservedIPs.Has(ipInfo.IP.String()) {
-			glog.Infof("%s reused %s, updating attr to %v", key, ipInfo.IPInfo.IP.String(), attr)
-			if err := p.ipam.UpdateAttr(key, ipInfo.IPInfo.IP.IP, attr); err != nil {
-				return nil, fmt.Errorf("failed to update floating ip release policy: %v", err)
-			}
 		}
 	}
 	var allocatedIPs []string
